@@ -22,7 +22,7 @@ var evC13 = ev.New("C13", "derived frames with >=1 column: strings of any bytes 
 	"oracle: round trip - same columns in written order, same rows in order, ints/bools/strings/enums identical, non-NaN floats bit-identical, NaN stays NaN, null<->\"\" as stated; "+
 	"non-trivial = >=2 rows, non-identity index, and a cell that forces quoting or a float with >=16 significant digits; distinct = FNV-64 of (table, route, options)")
 
-var hostileLegalNames = []string{"a", "b", "c", "d", "e", "col 1", "x,y", "q\"q", "l\nf", " lead", "trail ", "ä€", "\xff\xfe", "'", "a'b'", "\"", "1", "-", "\\.", "tab\there"}
+var hostileLegalNames = []string{"a", "b", "c", "d", "e", "col 1", "x,y", "q\"q", "l\nf", " lead", "trail ", "ä€", "\xff\xfe", "'", "a'b'", "\"", "1", "-", "\\.", "tab\there", "\ufeffbom", "''", "null", "\ufeff"}
 
 func noCR(tab hx.Table) hx.Table {
 	for ci, c := range tab.Cols {
